@@ -8,7 +8,7 @@
 (* the property-level relation XViol of NifGraph is evaluated on           *)
 (* (pre, W, post).  The only TLC variable is the line number.              *)
 (***************************************************************************)
-EXTENDS NifGraph, TLC, Json, IOUtils
+EXTENDS NifSort, TLC, Json, IOUtils
 VARIABLE l
 Tr == ndJsonDeserialize(IOEnv.TRACE)
 
@@ -59,9 +59,21 @@ Clauses(ev) ==
       [] ev.e = "crash"  -> {"NoCrash"}
       [] OTHER           -> {}
 
+\* exactness of the sorter transcription (NifSort) on the enumerated graphs: the real library must produce the very order
+\* and child lists the transcription computes.  A difference is model drift (reported, never a violation): design-level
+\* results about the sorter (NifSortMC) transfer to the code only while this holds.
+SortExact(ev) ==
+    IF ev.e # "sort" \/ "graph" \notin DOMAIN ev.case \/ ev.op \notin {"Sort", "Sort2", "ShapeOrder"} THEN TRUE
+    ELSE LET s   == ev.pre
+             old == s.ver \in {"OB", "FO3"}
+             r   == IF ev.op = "ShapeOrder" THEN SetShapeOrder_Exact(s, old, ev.names, 500) ELSE PrettySort_Exact(s, old, 500)
+         IN  ~r.div /\ N(ev.post) = N(r.t) /\ UidW(s, ev.post) = r.W
+             /\ \A k \in 1..N(r.t) : r.t.blocks[k].refs = ev.post.blocks[k].refs /\ r.t.blocks[k].ptrs = ev.post.blocks[k].ptrs
+
 Init == l = 1
 Next == /\ l <= Len(Tr)
         /\ LET v == Clauses(Tr[l]) IN IF v = {} THEN TRUE ELSE PrintT(ToJson([viol |-> l, clauses |-> v]))
+        /\ IF SortExact(Tr[l]) THEN TRUE ELSE PrintT(ToJson([drift |-> l, what |-> "sorter transcription differs"]))
         /\ l' = l + 1
 Spec == Init /\ [][Next]_l
 =============================================================================
